@@ -224,9 +224,10 @@ def run(ctx):
     sev = W.ev(sn.path)
     tok = P.items.get("roughenough::server::EVT_HEALTH_CHECK", {}).get("val", {}).get("int")
     level = None
-    for bb, t in sn.calls():
+    # Server::new and the closures written in it (`health_check_port().map(|port| { .. poll.register(..) .. })`)
+    for (f3, bb, t) in [(f3, bb, t) for f3 in [sn] + [g for g in P.fns.values() if g.path.startswith(sn.path + "::{closure")] for bb, t in f3.calls()]:
         if callee_name(t["fn"].get("path", "")) == "register":
-            a = sev.call_args(bb)
+            a = W.ev(f3.path).call_args(bb)
             if tok in [s[1] for s in values.subterms(a[2]) if isinstance(s, tuple) and s and s[0] == "int"] or a[2] == ("int", tok):
                 opt = a[4]
                 level = is_call(opt) and callee_name(opt[1]) == "level"
